@@ -18,7 +18,7 @@ const FORMATS: [&str; 4] = ["xlsx", "xlsb", "xls", "ods"];
 const S: [&str; 3] = ["Data", "Second", "Other"];
 
 fn project() -> VProject {
-    VProject { codepage: 1252, modules: vec![VModule { name: "Module1".into(), stream_name: "Module1".into(), source: b"Sub A()\r\nEnd Sub\r\n".to_vec(), text_offset: 0, mode: 0, class_module: false, read_only: false, private: false }], refs: vec![VRef { name: "stdole".into(), kind: RefKind::Registered }], compat_version: false }
+    VProject { codepage: 1252, modules: vec![VModule { name: "Module1".into(), stream_name: "Module1".into(), source: b"Sub A()\r\nEnd Sub\r\n".to_vec(), text_offset: 0, mode: 0, class_module: false, read_only: false, private: false }], refs: vec![VRef { name: "stdole".into(), kind: RefKind::Registered }], compat_version: false, descriptive: false }
 }
 
 pub fn workbook(fmt: &str) -> Vec<u8> {
@@ -314,6 +314,13 @@ pub fn check(rep: &Report) {
             rep.eval(1);
             if !same { rep.fail(&format!("{fmt}/auto-vs-own/{}", COMMON[c]), &format!("auto-detected reader gave {r:?}, the {fmt} reader {own}"), || replay(&[COMMON.len() + o, c], "auto")); }
         } }
+        // ... and after a change of the option: set o1, set o2, call (the wrapper has to forward every setting, also a return to the default)
+        for o1 in 0..3 { for o2 in 0..3 { if o1 == o2 { continue; } for c in [0usize, 1, 3, 7] {
+            let r = guarded(|| { let mut wb = open(fmt, &bytes, true)?; do_call(&mut wb, COMMON.len() + o1); do_call(&mut wb, COMMON.len() + o2); Ok::<String, String>(do_call(&mut wb, c)) });
+            let own = base.get(&(o2, c)).cloned().unwrap_or_default();
+            rep.eval(1);
+            if !matches!(&r, Ok(Ok(s)) if *s == own) { rep.fail(&format!("{fmt}/auto-vs-own/after-option-change/{}", COMMON[c]), &format!("auto-detected reader after {} then {} gave {r:?}, the {fmt} reader under {} gives {own}", OPTS[o1], OPTS[o2], OPTS[o2]), || replay(&[COMMON.len() + o1, COMMON.len() + o2, c], "auto")); }
+        } } }
         // all sequences up to `depth`
         let mut total = 0u64;
         let mut transitions = 0u64;
